@@ -88,7 +88,9 @@ def main():
                                          'choices': [list(c) for c in choices], 'matches': matches})
             # noise side, dyadic parameters (exact float arithmetic)
             for (nm, ax) in choices:
-                for (rx, ry, rz, p) in [(0.125, 0.25, 0.625, 0.25), (0.0, 0.5, 0.5, 0.5), (1.0, 0.0, 0.0, 0.125)]:
+                for (rx, ry, rz, p) in [(0.125, 0.25, 0.625, 0.25), (0.0, 0.5, 0.5, 0.5), (1.0, 0.0, 0.0, 0.125),
+                                        # directions with two equal components (a relabelling that moves Y is visible only then)
+                                        (0.25, 0.5, 0.25, 0.25), (0.0, 1.0, 0.0, 0.5), (0.375, 0.375, 0.25, 0.125)]:
                     c = klass(*size)
                     kw = {'deformation_axis': ax} if ax else {}
                     und = PauliErrorModel(rx, ry, rz).probability_distribution(c, p)
